@@ -183,8 +183,8 @@ def run_case(sc: Dict[str, Any]) -> Outcome:
             continue
         # ---- worker side
         to = sp.get("timeout")
-        timed_out = sp["kind"] == "async" and to is not None and sp["dur"] > float(to)
-        tie = sp["kind"] == "async" and to is not None and sp["dur"] == float(to)
+        timed_out = wh.timeout_verdict(sp) == "timeout"
+        tie = wh.timeout_verdict(sp) == "tie"
         raised = timed_out or sp["out"] != "ret"
         nores = sp["out"] == "NoResult" and not timed_out
         worker_kinds = ("pre_execute", "enter", "exit", "on_error", "post_execute", "save_start", "save_end", "save_failed", "post_save")
